@@ -11,7 +11,11 @@ out=/verif/seeded/$prop-$label
 mkdir -p "$out"
 cp "$patch" "$out/patch.diff"; cp "$demo" "$out/demo.rs"
 [ -f "$(dirname "$patch")/notes.md" ] && cp "$(dirname "$patch")/notes.md" "$out/notes.md"
-log="$out/confirm.log"; : > "$log"
+log="$out/confirm.log"
+# PHASE=1: only the confirmation in the scratch worktree (may run in parallel for several worktrees);
+# PHASE=2: only the check against /repo (serial), using the stored confirmation; default: both.
+if [ "${PHASE:-}" != 2 ]; then
+: > "$log"
 cd "$wt" || exit 2
 git checkout -q -- . ; rm -rf vibrato/tests/demo_mut.rs
 mkdir -p vibrato/tests
@@ -23,6 +27,11 @@ git checkout -q -- .
 cargo test -p vibrato --offline --test demo_mut >>"$log" 2>&1; demo_without=$?
 rm -f vibrato/tests/demo_mut.rs; rmdir vibrato/tests 2>/dev/null
 echo "suite with patch: $suite; demo with patch exit=$demo_with (want !=0); demo without patch exit=$demo_without (want 0)"
+printf '%s\n%s\n%s\n' "$suite" "$demo_with" "$demo_without" > "$out/phase1.txt"
+[ "${PHASE:-}" = 1 ] && exit 0
+else
+  { read -r suite; read -r demo_with; read -r demo_without; } < "$out/phase1.txt" || { echo "no phase-1 result"; exit 2; }
+fi
 # run the checks against /repo with the patch applied
 cd /repo && git apply "$out/patch.diff" || { echo "PATCH DOES NOT APPLY TO /repo"; exit 2; }
 results=""
